@@ -63,6 +63,34 @@ def _is_treepath_test(test):
     return None
 
 
+def _label_getter_kind(ctx, r, scope, call):
+    """'getter' if the call reads the '?' label (the pinned get_treepath_memo, or -- by effect -- a function that only loads the label
+    thread-local and raises when it is unset); 'other' if it positively is something else (a pinned function, an external callable);
+    an AnalysisError if it is a new function the rule cannot classify."""
+    m = ctx.model
+    if r.role_of_call(scope, call) == "get_treepath_memo":
+        return "getter"
+    t = m.resolve_call(scope, call)
+    if t.kind == "func":
+        try:
+            stack_tl, _, _ = c05.locate_stack(r)
+            labels = [fl for fl in discover_flags(m, r, stack_tl) if fl.guarded_setters or fl.raising_getters]
+        except AnalysisError:
+            labels = []
+        if len(labels) == 1 and t.target.qualname in labels[0].raising_getters and t.target in labels[0].getters:
+            return "getter"
+        try:
+            from ..inventory import FUNCTIONS
+        except ImportError:
+            FUNCTIONS = set()
+        if t.target.qualname in FUNCTIONS:
+            return "other"
+        raise AnalysisError(f"C16.2: `{norm(call)}` in {scope.qualname} resolves to the new function {t.target.qualname}, which is not recognisably the label getter")
+    if t.kind in ("ext", "class", "builtin"):
+        return "other"
+    raise AnalysisError(f"C16.2: the callee of `{norm(call)}` in {scope.qualname} could not be resolved; whether it reads the '?' label is unknown")
+
+
 def check_sibling_agreement(ctx, r):
     m = ctx.model
     n_sites = 0
@@ -113,7 +141,7 @@ def check_sibling_agreement(ctx, r):
                             fb = ret_of(st.orelse) or (after[-1].value if after and not st.orelse else None)
                             tside, fside = (tb, fb) if pol else (fb, tb)
                             okt = (isinstance(tside, ast.BinOp) and isinstance(tside.op, ast.Add) and isinstance(tside.left, ast.Call)
-                                   and r.role_of_call(h, tside.left) == "get_treepath_memo" and norm(tside.right) == f"{d}.name")
+                                   and _label_getter_kind(ctx, r, h, tside.left) == "getter" and norm(tside.right) == f"{d}.name")
                             okf = fside is not None and norm(fside) == f"{d}.name"
                             ok_h = okt and okf
                             if not ok_h:
@@ -130,7 +158,7 @@ def check_sibling_agreement(ctx, r):
                 dimtxt, pol = _is_treepath_test(ie.test)
                 tside, fside = (ie.body, ie.orelse) if pol else (ie.orelse, ie.body)
                 okt = (isinstance(tside, ast.BinOp) and isinstance(tside.op, ast.Add) and isinstance(tside.left, ast.Call)
-                       and r.role_of_call(f, tside.left) == "get_treepath_memo"
+                       and _label_getter_kind(ctx, r, f, tside.left) == "getter"
                        and isinstance(tside.right, ast.Attribute) and tside.right.attr == "name" and norm(tside.right.value) == dimtxt)
                 okf = isinstance(fside, ast.Attribute) and fside.attr == "name" and norm(fside.value) == dimtxt
                 if not okt:
@@ -152,7 +180,7 @@ def check_sibling_agreement(ctx, r):
                     raise AnalysisError(f"C16.2: key `{k.id}` in {q}: expected one definition per branch of the treepath test")
                 tside, fside = (b[0].value, o[0].value) if pol else (o[0].value, b[0].value)
                 okt = (isinstance(tside, ast.BinOp) and isinstance(tside.op, ast.Add) and isinstance(tside.left, ast.Call)
-                       and r.role_of_call(f, tside.left) == "get_treepath_memo"
+                       and _label_getter_kind(ctx, r, f, tside.left) == "getter"
                        and isinstance(tside.right, ast.Attribute) and tside.right.attr == "name" and norm(tside.right.value) == dimtxt)
                 okf = isinstance(fside, ast.Attribute) and fside.attr == "name" and norm(fside.value) == dimtxt
                 if not okt:
@@ -176,8 +204,9 @@ def check_label_template(ctx, r, cg):
     fl = labels[0]
     setter = need([f for f in fl.setters if f.qualname in fl.guarded_setters] or fl.setters or fl.mixed, "label setter not found")[0]
     ctx.saw(setter)
-    need(len(setter.params) >= 2, "label setter no longer takes (index, structure)")
-    p_index, p_struct = setter.params[0], setter.params[1]
+    sparams = [p for p in setter.params if not (setter.cls is not None and p in ("self", "cls"))]
+    need(len(sparams) >= 2, "label setter no longer takes (index, structure)")
+    p_index, p_struct = sparams[0], sparams[1]
     n_tpl = 0
     tpls = []
     for n in walk_scope(setter.node):
